@@ -261,10 +261,12 @@ func emitRlines(id string, content []byte, sched []schedStep, final string) {
 func opRlines(r *rand.Rand, n int, tier string) {
 	for i := 0; i < n; i++ {
 		var txt string
-		switch r.Intn(5) {
+		switch r.Intn(6) {
 		case 0:
 			k := []int{16382, 16383, 16384, 16385, 16386, 32767, 32768, 32769, 49152}[r.Intn(9)]
 			txt = strings.Repeat("a", k-1) + "\n" + genJunk(r, r.Intn(3), false, r.Intn(3) == 0) + "z"
+		case 4: // an unterminated last line of exactly k buffers
+			txt = genJunk(r, r.Intn(2), false, false) + strings.Repeat("d", (1+r.Intn(3))*16384+[]int{0, 0, 0, -1, 1}[r.Intn(5)])
 		case 1:
 			txt = strings.Repeat("b", r.Intn(40000))
 			if r.Intn(2) == 0 {
